@@ -19,7 +19,7 @@ ERRX = ['1 + "a"', "[1] select 7", "call 5", '[] deleteAt "x"', "(1 + nil2__) + 
 ERRX = ['1 + "a"', "[1] select 7", "call 5", '[] deleteAt "x"']
 ERRN = ["{5} count [1]", "[1] select {5}", "while {5} do {}", "[1] findIf {5}", "[1, 2] apply {1 + \"a\"}"]
 ERRN = ["{5} count [1]", "[1] select {5}", "while {5} do {}", "[1] findIf {5}"]
-NESTS = ["call", "if", "foreach", "for", "switch", "while", "try", "callarg", "count"]
+NESTS = ["call", "if", "foreach", "for", "switch", "while", "try", "callarg", "count", "exitwith"]
 
 
 class Builder:
@@ -102,6 +102,10 @@ class Builder:
                 elif kind == "while":
                     self.nw += 1
                     self.emit(indent + "gW%d = 0; while {gW%d < 1} do { gW%d = gW%d + 1;" % ((self.nw,) * 4))
+                    close = "};"
+                elif kind == "exitwith":
+                    # early-out idiom: the rest of the enclosing block is not executed (markers are optional for the monitor)
+                    self.emit(indent + "if (true) exitWith {")
                     close = "};"
                 elif kind == "try":
                     self.emit(indent + "try {")
